@@ -24,7 +24,6 @@ func constExact(o types.Object) string {
 	return "?"
 }
 
-
 // flatPhi returns the non-phi values that can flow into a phi, looking through the merge phis that
 // "continue" and if/else joins put between a loop-carried variable and its header phi.  The phi itself and
 // the intermediate phis are left out.
